@@ -31,7 +31,9 @@ def run_one(prop, m, tier, skip_copy=False):
     out = r.stdout + r.stderr
     vio = [l for l in out.split("\n") if l.startswith("VIOLATION")]
     und = [l for l in out.split("\n") if l.startswith("UNDECIDED")]
-    if expect == "OK":
+    if expect == "NOALARM":   # semantically equivalent rewrite that may legitimately lose a proof: exit 0 or 2, never a VIOLATION
+        verdict = "PASS" if r.returncode in (0, 2) and not vio else "FAIL"
+    elif expect == "OK":
         verdict = "PASS" if r.returncode == 0 and not vio else "FAIL"
     else:
         verdict = "PASS" if r.returncode == 1 and any(expect in l for l in vio) else ("WEAK" if r.returncode == 1 else "FAIL")
